@@ -77,17 +77,27 @@ def parseOD (s : String) : Option OD :=
   if s = "-" then some {} else
   ((s.splitOn ";").foldlM applyItem (({} : OD), none)).map fun st => flush st.1 st.2
 
+/-- `I=`: the node id of the dictionary obtained by importing an exported DCF *without* an explicit node id
+    (`-` for an EDS, `err` when that import raises) -/
+def showFileNodeId (dcf : Bool) (d : Doc) : String :=
+  if dcf then
+    match importEds d none with
+    | some od' => "I=" ++ showOpt showInt od'.nodeId
+    | none => "I=err"
+  else "I=-"
+
 def showRound (od : OD) (dcf : Bool) (nid0 : Option Int) : String :=
   -- the node id in force for the original dictionary is in force for the re-import
   let nid := match nid0 with | some n => some n | none => od.nodeId
   match roundTrip od dcf nid with
-  | none => "ok X=1 O=(" ++ showOD od ++ ") export-err"
-  | some (d, r) => "ok X=1 O=(" ++ showOD od ++ ") D=" ++ encDoc d ++ " R=(" ++ showResult r ++ ")"
+  | none => "ok X=1 I=- O=(" ++ showOD od ++ ") export-err"
+  | some (d, r) => "ok X=1 " ++ showFileNodeId dcf d ++ " O=(" ++ showOD od ++ ") D=" ++ encDoc d ++
+      " R=(" ++ showResult r ++ ")"
 
-def showStep (od : OD) (r : Option (Doc × Option OD)) : String :=
+def showStep (od : OD) (dcf : Bool) (r : Option (Doc × Option OD)) : String :=
   match r with
-  | none => "O=(" ++ showOD od ++ ") export-err"
-  | some (d, r) => "O=(" ++ showOD od ++ ") D=" ++ encDoc d ++ " R=(" ++ showResult r ++ ")"
+  | none => "I=- O=(" ++ showOD od ++ ") export-err"
+  | some (d, r) => showFileNodeId dcf d ++ " O=(" ++ showOD od ++ ") D=" ++ encDoc d ++ " R=(" ++ showResult r ++ ")"
 
 /-- the steps of a `hist` history: five tokens each (`<eds|dcf> <f|s|o> <file stem> <node id|none> <dictionary>`);
     the file of a step is `<stem>.<eds|dcf>` -/
@@ -131,7 +141,7 @@ def step (args : List String) : String :=
     | some k, some steps =>
       if k = steps.length ∧ 0 < k then
         "ok " ++ " # ".intercalate
-          ((List.zip steps (roundHistory [] steps)).map fun p => showStep p.1.od p.2)
+          ((List.zip steps (roundHistory [] steps)).map fun p => showStep p.1.od p.1.dcf p.2)
       else "bad-op"
     | _, _ => "bad-op"
   | ["rev", t, v] =>
